@@ -8,7 +8,11 @@ sys.path.insert(0, '/verif')
 from vlib import common, build, gfam, exptools, drv
 
 PID = 'C12'
-TOOLS = ['exp2cxx', 'exp2python', 'exppp', 'schema_scanner']
+TOOLS = ['exp2cxx', 'exp2python', 'exppp', 'exppp-default', 'schema_scanner']      # exppp-default: without -o, the printer names its output after the schema
+
+
+def exe_of(tool):
+    return build.ensure_scanner() if tool == 'schema_scanner' else build.tool('exppp' if tool == 'exppp-default' else tool, 'plain')
 
 BASE = {'aslr': False, 'shift': 0, 'cwd': 'plain', 'path': 'abs', 'envpad': 0, 'lc': 'C', 'order': 'first'}
 AXES = {
@@ -67,7 +71,7 @@ def run_cfg(job):
             link = os.path.join(root, 'link_to_schema.exp')
             os.symlink(src, link)
             arg = link
-        exe = build.ensure_scanner() if tool == 'schema_scanner' else build.tool(tool, 'plain')
+        exe = exe_of(tool)
         env = dict(common.BASE_ENV)
         env['LC_ALL'] = cfg['lc']
         if cfg['envpad']:
@@ -143,7 +147,7 @@ def first_diff(tool, text, cfg, relpath):
             src = os.path.join(root, 'schema_in.exp')
             with open(src, 'wb') as f:
                 f.write(text if isinstance(text, bytes) else text.encode('latin1'))
-            exe = build.ensure_scanner() if tool == 'schema_scanner' else build.tool(tool, 'plain')
+            exe = exe_of(tool)
             env = dict(common.BASE_ENV)
             env['LC_ALL'] = c['lc']
             if c['shift']:
